@@ -49,7 +49,8 @@ EXT_EXC = {
     "InterpolationMissingOptionError": "InterpolationError", "InterpolationSyntaxError": "InterpolationError",
     "ParsingError": "Error", "MissingSectionHeaderError": "ParsingError",
     # cexprtk / pyparsing
-    "ParseException": "Exception", "NameShadowException": "Exception",
+    "ParseException": "Exception", "NameShadowException": "Exception", "ReservedFunctionShadowException": "NameShadowException",
+    "VariableNameShadowException": "NameShadowException",
 }
 
 
